@@ -12,6 +12,7 @@ E.register_run_test(R, "C05")
 E.register_worker_task(R, "C05")
 E.register_cached_test_func(R, "C05")
 E.register_stateful_loop(R, "C05")
+E.register_stateful_execute(R, "C05")
 
 TRUSTED_BASE = ["E5 queue.Queue / threading models", "E2 Hypothesis re-raises the exception of a failing example from the test function"]
 ASSUMPTIONS = ["sequential consumer; worker interleavings only through the queue contract"]
